@@ -26,3 +26,5 @@ def run(prog, chk):
     # a slot becomes reusable only after its element's destructor has run: an append made from inside that destructor (or any
     # re-entrant use) otherwise constructs a new element over the one being destroyed
     C.destroy_once(prog, chk, "C05.i", tuple(C.NODE))
+    # clear() must not leave a table/list pointer to a recycled slot: the slot is handed out again while the stale pointer still designates it
+    C.clear_resets(prog, chk, "C05.j", tuple(C.NODE))
